@@ -377,6 +377,21 @@ def w_rules(F, R):
                         other = strip(x["b"] if side is x["a"] else x["a"])
                         if not (other.get("k") == "Field" and other["name"] == "tolerance"):
                             raw.append((f["path"], sexp(x)))
+    # W-SNAP: a propagated bound of an integer variable is rounded after being loosened by the analyzer's own tolerance
+    # (the same field every propagation comparison uses): propagated end-points carry float error of the size that
+    # tolerance absorbs elsewhere; rounding with a smaller slack moves the bound past a feasible integer
+    fa = F.fn(ANALYZER + "::apply_to_domain") if "ANALYZER" in globals() else None
+    if fa is None:
+        fa = next((g for g in F.fn_list if g["path"].endswith("BoundsAnalyzer::apply_to_domain")), None)
+    if fa is not None and "body" in fa:
+        snaps = []
+        for x in walk(fa["body"]):
+            if x.get("k") == "MCall" and x["name"] in ("ceil", "floor") and not x["args"]:
+                r = strip(x["recv"])
+                want_op, want_end = ("-", "lower") if x["name"] == "ceil" else ("+", "upper")
+                ok = r.get("k") == "Binary" and r["op"] == want_op and strip(r["a"]).get("k") == "Field" and strip(r["a"])["name"] == want_end and sexp(strip(r["b"])) == "self.tolerance"
+                snaps.append((x["name"], sexp(r), ok))
+        R.ob("W-SNAP", "apply_to_domain:integer-rounding", len(snaps) >= 2 and all(o for _, _, o in snaps), F.loc(fa), "integer bounds are rounded as (lower - self.tolerance).ceil() / (upper + self.tolerance).floor(): %s" % [(n, t) for n, t, _ in snaps])
     R.ob("W-NANFREE", "raw-sums", not raw, "packages/rooc/src/transformers/bounds.rs", "raw `+` between interval end-points outside lower_sum/upper_sum (inf + -inf = NaN): %s" % raw)
     f = F.fn(BOUNDS + "::scale")
     if f is not None:
